@@ -365,7 +365,7 @@ pub fn execute(case: &Value, _scratch: &str) -> Outcome {
 }
 
 pub fn gen_steps(sw: &mut Rng, wl: &mut Rng, sheets: usize, n: usize) -> Vec<Step> {
-    let alpha = sw.usize(4);
+    let alpha = sw.usize(5);
     // swarm: which annotation kinds are on
     let mut aw = [0u32; 11];
     for w in aw.iter_mut() {
@@ -397,7 +397,9 @@ pub fn gen_steps(sw: &mut Rng, wl: &mut Rng, sheets: usize, n: usize) -> Vec<Ste
                 }
                 steps.push(Step::O(op));
             }
-            6..=9 => steps.push(Step::A(annot::gen_aop(wl, sheets, alpha, &tag, &aw))),
+            // control characters (alphabet 4) are generated for cell and comment text only: that is where
+            // ST_Xstring escaping is defined; attribute-valued texts and sheet names never carry them
+            6..=9 => steps.push(Step::A(annot::gen_aop(wl, sheets, alpha % 4, &tag, &aw))),
             10 if wl.chance(1, 3) => {
                 steps.push(Step::O(Op::LocalName { sheet: wl.usize(sheets), name: format!("ln_{}", i), address: format!("$C${}", 1 + wl.below(9)) }));
             }
@@ -405,7 +407,7 @@ pub fn gen_steps(sw: &mut Rng, wl: &mut Rng, sheets: usize, n: usize) -> Vec<Ste
                 let s = match wl.usize(4) {
                     0 => Op::SetActive { sheet: wl.usize(sheets) },
                     1 => Op::SetState { sheet: 1 + wl.usize(sheets.max(2) - 1), state: ["hidden", "veryHidden", "visible"][wl.usize(3)].to_string() },
-                    2 => Op::RenameSheet { sheet: wl.usize(sheets), name: format!("R{} {}", i, world::gen_text(wl, if alpha == 1 { 3 } else { alpha }, 2).replace(['/', '\\', '?', '*', '[', ']', ':', '\n', '\t', '\r'], "_")) },
+                    2 => Op::RenameSheet { sheet: wl.usize(sheets), name: format!("R{} {}", i, world::gen_text(wl, if alpha == 1 || alpha == 4 { 3 } else { alpha }, 2).replace(['/', '\\', '?', '*', '[', ']', ':', '\n', '\t', '\r'], "_")) },
                     _ => Op::NewSheet { name: format!("N{}", i) },
                 };
                 steps.push(Step::O(s));
